@@ -108,6 +108,18 @@ PROPS = {
         "level_note": "trusted: Cache.tla's abstraction of from_ym (bound by the hit/miss/fill/refuse hook events), the guarded hooks, the OS scheduler for real interleavings; answers are compared with the uncached constructor / a fresh process of the same build, so a defect that is history-independent is out of scope here (C02/C03 cover it)",
         "technique": "TLA+ memo model: exhaustive interleavings with TLC, TLC-generated histories replayed into the code, hook-event trace validation",
     },
+    "C11": {
+        "title": "stepping by n is a consistent group action on every time unit and cycle",
+        "mc": {"quick": [{"module": "MC_Stepping", "cfg": "MC_Stepping.cfg", "workers": 4}]},
+        "rule": "every element of 42 cyclic types x 13 step counts (0, +-1, +-size, +-(size+1), +-(2 size+3), +-1000003, +-2000000011), from_index(i + k*size), name round trip, unknown name, 5 composition pairs (exhaustive over elements); "
+                "300 (quick) / 15,000 (thorough) seeded (value, a, b) triples for each of 22 linear units, a fifth of them at the edges of the supported range (incl. sexagenary years -1, 0). "
+                "Non-trivial: every cyclic element; linear steps that go backwards or leave the year/day",
+        "exhaustive": {"quick": False, "thorough": False},
+        "assumptions": ["for lunar months only the group laws and the direction of movement are checked here (their ordinal is the month walk of C03)"],
+        "level_text": "TLC checks the modular stepping law for every cycle size of the library and all |n| <= 2 size + 3 and the floor carries of year-scaled ordinals across year 0 (MC_Stepping) and validates the real code: every element of every cyclic type against (index + n) mod size and its name/index inverses, and sampled triples of every linear unit against Step 0 = id, Step a then b = Step (a+b), Step a then -a = id and 'moves by exactly n units' through the unit's ordinal projection",
+        "level_note": "trusted: Stepping.tla ordinal projections, Clock.tla for instants, TLC, harness logging; cyclic part exhaustive, linear part sampled",
+        "technique": "TLA+ stepping laws checked with TLC + exhaustive (cyclic) and sampled (linear) trace validation",
+    },
     "C12": {
         "title": "clock arithmetic to the second and Julian-date<->clock conversion are exact",
         "mc": {"quick": [{"module": "MC_Clock", "cfg": "MC_Clock.cfg", "workers": 4}]},
